@@ -149,11 +149,16 @@ def bounded_generated_union_members(tier, seed):
         "Text": {"oneOf": [{"type": "array", "items": S}, {"type": "object", "additionalProperties": S}]},
         "Loose": {"anyOf": [{"type": "object", "additionalProperties": P["int"]}, S]},
         "Mixed": {"oneOf": [C.ref("Item"), {"type": "array", "items": C.ref("Item")}, {"type": "object", "additionalProperties": C.ref("Item")}, P["int"]]},
-        "Holder": C.obj({"text": C.ref("Text"), "loose": C.ref("Loose"), "mixed": C.ref("Mixed")}, []),
+        # an earlier variant whose REQUIRED properties all declare a default: it must not thereby accept every object (a later variant's payload is still the later variant)
+        "Circle": C.obj({"unit": dict(P["str"], default="cm"), "radius": P["num"]}, ["unit"]),
+        "Square": C.obj({"side": P["num"], "label": P["str"]}, ["side"]),
+        "Shape": {"oneOf": [C.ref("Circle"), C.ref("Square")]},
+        "Holder": C.obj({"text": C.ref("Text"), "loose": C.ref("Loose"), "mixed": C.ref("Mixed"), "shape": C.ref("Shape")}, []),
     }
     d = C.doc("UM", [C.op("/h", "get", "getH", ["h"], responses={"200": C.resp_json(C.ref("Holder")), "201": C.resp_json(C.ref("Text")), "202": C.resp_json(C.ref("Mixed"))})], schemas)
     payloads = [("text", ["a", "b"]), ("text", {"en": "Hello", "fi": "Hei"}), ("loose", {"a": 1, "b": 0}), ("loose", "plain"),
-                ("mixed", {"item-id": "i", "meowVolume": 0, "n": 0}), ("mixed", [{"item-id": "i", "meowVolume": 3}]), ("mixed", {"k": {"item-id": "i", "meowVolume": 2}}), ("mixed", 0)]
+                ("mixed", {"item-id": "i", "meowVolume": 0, "n": 0}), ("mixed", [{"item-id": "i", "meowVolume": 3}]), ("mixed", {"k": {"item-id": "i", "meowVolume": 2}}), ("mixed", 0),
+                ("shape", {"side": 2.0, "label": "b"}), ("shape", {"unit": "mm", "radius": 1.5}), ("shape", {"side": 0.0})]
     root = G.scratch("c14m")
     failures, n = [], 0
     try:
